@@ -37,7 +37,12 @@ Qed.
 
 Lemma wf_lit1 x : 0 <= x < W64 -> u64 x. Proof. exact (fun H => H). Qed.
 (* the walk does not depend on the VALUES of the modulus limbs once the flags are decided: abstract the literals *)
-Ltac gen_list l := lazymatch l with ?x :: ?r => generalize x; intro; gen_list r | _ => idtac end.
+(* limbs 0 and 1 stay literal: they also occur as initial carries / shift amounts, and they are small terms *)
+Ltac gen_list l :=
+  lazymatch l with
+  | ?x :: ?r => lazymatch x with 0 => idtac | 1 => idtac | _ => generalize x; intro end; gen_list r
+  | _ => idtac
+  end.
 Ltac gen_lits M := let l := eval cbv [M] in M in gen_list l.
 Ltac lit_wf := repeat (apply Forall_cons; [apply wf_lit1; cbv [W64]; lia|]); apply Forall_nil.
 
@@ -779,6 +784,334 @@ Lemma gen_bls381fq_square_in_place_model a0 a1 a2 a3 a4 a5 :
   wf [a0; a1; a2; a3; a4; a5] -> val [a0; a1; a2; a3; a4; a5] < gen_bls381fq_modulus_attr ->
   gen_bls381fq_square_in_place (inv_of gen_bls381fq_modulus) a0 a1 a2 a3 a4 a5 = square_in_place true gen_bls381fq_modulus [a0; a1; a2; a3; a4; a5].
 Proof. intros Ha Hx. pose proof (proj1 gen_bls381fq_modulus_val) as Hv. pose proof gen_bls381fq_modulus_wf as Hm. pose proof gen_bls381fq_modulus_odd as Ho. pose proof gen_bls381fq_modulus_ne as Hne. rewrite <- Hv in *. rewrite gen_bls381fq_square_in_place_eq. cbv [square_in_place length Nat.eqb gen_bls381fq_modulus]. reflexivity. Qed.
+
+(* ================= Z191: N = 3, 191 bits, no-carry false, spare bit true ================= *)
+Lemma gen_z191_modulus_val  :
+  val gen_z191_modulus = gen_z191_modulus_attr /\ length gen_z191_modulus = 3%nat /\ wf gen_z191_modulus /\ gen_z191_modulus_attr mod 2 = 1 /\
+  gen_z191_modulus_attr = 3138550867693340381577612344682894744587803114800249045299.
+Proof. split; [vm_compute; reflexivity|]. split; [reflexivity|]. split; [cbv [gen_z191_modulus]; lit_wf |]. split; [vm_compute; reflexivity | reflexivity]. Qed.
+Lemma gen_z191_modulus_wf : wf gen_z191_modulus. Proof. exact (proj1 (proj2 (proj2 gen_z191_modulus_val))). Qed.
+Lemma gen_z191_modulus_odd : val gen_z191_modulus mod 2 = 1. Proof. rewrite (proj1 gen_z191_modulus_val). exact (proj1 (proj2 (proj2 (proj2 gen_z191_modulus_val)))). Qed.
+Lemma gen_z191_modulus_ne : gen_z191_modulus <> []. Proof. discriminate. Qed.
+Lemma gen_z191_flags  :
+  has_spare_bit gen_z191_modulus = true /\ nocarry_macro gen_z191_modulus = false.
+Proof. split; vm_compute; reflexivity. Qed.
+Lemma gen_z191_spare : has_spare_bit gen_z191_modulus = true. Proof. exact (proj1 gen_z191_flags). Qed.
+Lemma gen_z191_nc : nocarry_macro gen_z191_modulus = false. Proof. exact (proj2 gen_z191_flags). Qed.
+Lemma gen_z191_add_with_carry_eq a0 a1 a2 b0 b1 b2 :
+  gen_z191_add_with_carry a0 a1 a2 b0 b1 b2 = add_with_carry [a0; a1; a2] [b0; b1; b2].
+Proof. cbv [gen_z191_add_with_carry add_with_carry add_chain]. crush. Qed.
+Lemma gen_z191_sub_with_borrow_eq a0 a1 a2 b0 b1 b2 :
+  gen_z191_sub_with_borrow a0 a1 a2 b0 b1 b2 = sub_with_borrow [a0; a1; a2] [b0; b1; b2].
+Proof. cbv [gen_z191_sub_with_borrow sub_with_borrow sub_chain]. crush. Qed.
+Lemma gen_z191_subtract_modulus_eq a0 a1 a2 :
+  gen_z191_subtract_modulus a0 a1 a2 = subtract_modulus gen_z191_modulus [a0; a1; a2].
+Proof. cbv [gen_z191_subtract_modulus gen_z191_modulus subtract_modulus subtract_modulus_with_carry is_geq_modulus sub_with_borrow sub_chain add_with_carry add_chain fst snd negb orb andb]. gen_lits gen_z191_modulus. crush. Qed.
+Lemma gen_z191_subtract_modulus_with_carry_eq a0 a1 a2 carry :
+  gen_z191_subtract_modulus_with_carry a0 a1 a2 carry = subtract_modulus_with_carry gen_z191_modulus [a0; a1; a2] carry.
+Proof. cbv [gen_z191_subtract_modulus_with_carry gen_z191_modulus subtract_modulus subtract_modulus_with_carry is_geq_modulus sub_with_borrow sub_chain add_with_carry add_chain fst snd negb orb andb]. gen_lits gen_z191_modulus. crush. Qed.
+Lemma gen_z191_add_assign_eq a0 a1 a2 b0 b1 b2 :
+  gen_z191_add_assign a0 a1 a2 b0 b1 b2 = add_assign gen_z191_modulus [a0; a1; a2] [b0; b1; b2].
+Proof. cbv [add_assign final_sub]. rewrite gen_z191_spare. cbv [gen_z191_add_assign gen_z191_modulus subtract_modulus subtract_modulus_with_carry is_geq_modulus sub_with_borrow sub_chain add_with_carry add_chain fst snd negb orb andb]. gen_lits gen_z191_modulus. crush. Qed.
+Lemma gen_z191_sub_assign_eq a0 a1 a2 b0 b1 b2 :
+  gen_z191_sub_assign a0 a1 a2 b0 b1 b2 = sub_assign gen_z191_modulus [a0; a1; a2] [b0; b1; b2].
+Proof. cbv [gen_z191_sub_assign gen_z191_modulus sub_assign sub_with_borrow sub_chain add_with_carry add_chain fst snd negb orb andb]. gen_lits gen_z191_modulus. crush. Qed.
+Lemma gen_z191_double_in_place_eq a0 a1 a2 :
+  gen_z191_double_in_place a0 a1 a2 = double_in_place gen_z191_modulus [a0; a1; a2].
+Proof. cbv [double_in_place final_sub]. rewrite gen_z191_spare. cbv [gen_z191_double_in_place gen_z191_modulus mul2 mul2_chain subtract_modulus subtract_modulus_with_carry is_geq_modulus sub_with_borrow sub_chain add_with_carry add_chain fst snd negb orb andb]. gen_lits gen_z191_modulus. crush. Qed.
+Lemma gen_z191_neg_in_place_eq a0 a1 a2 :
+  gen_z191_neg_in_place a0 a1 a2 = neg_in_place gen_z191_modulus [a0; a1; a2].
+Proof. cbv [gen_z191_neg_in_place gen_z191_modulus neg_in_place is_zero forallb sub_with_borrow sub_chain add_with_carry add_chain fst snd negb orb andb]. gen_lits gen_z191_modulus. crush. Qed.
+Lemma gen_z191_mul_assign_eq a0 a1 a2 b0 b1 b2 :
+  gen_z191_mul_assign (inv_of gen_z191_modulus) a0 a1 a2 b0 b1 b2 = mul_assign_w (nocarry_macro gen_z191_modulus) (has_spare_bit gen_z191_modulus) gen_z191_modulus [a0; a1; a2] [b0; b1; b2].
+Proof. rewrite gen_z191_spare, gen_z191_nc. cbv [gen_z191_mul_assign gen_z191_modulus mul_assign_w nc_rows_w nc_row_w nc_inner fold_left mul_without_cond_subtract red_rows mul_rows mac_row set_first skipn firstn length zeros repeat app Nat.add subtract_modulus subtract_modulus_with_carry is_geq_modulus sub_with_borrow sub_chain add_with_carry add_chain fst snd negb orb andb]. gen_lits gen_z191_modulus. crush. Qed.
+Lemma gen_z191_square_in_place_eq a0 a1 a2 :
+  gen_z191_square_in_place (inv_of gen_z191_modulus) a0 a1 a2 = square_full gen_z191_modulus [a0; a1; a2].
+Proof. cbv [square_full final_sub]. rewrite gen_z191_spare. cbv [gen_z191_square_in_place gen_z191_modulus sq_offdiag shl1_chain sq_diag sq_red_rows subtract_modulus subtract_modulus_with_carry is_geq_modulus mul_rows mac_row set_first skipn firstn length zeros repeat app Nat.add sub_with_borrow sub_chain add_with_carry add_chain fst snd negb orb andb]. gen_lits gen_z191_modulus. crush_sq. Qed.
+Lemma gen_z191_add_assign_spec a0 a1 a2 b0 b1 b2 :
+  wf [a0; a1; a2] -> val [a0; a1; a2] < gen_z191_modulus_attr -> wf [b0; b1; b2] -> val [b0; b1; b2] < gen_z191_modulus_attr ->
+  let r := gen_z191_add_assign a0 a1 a2 b0 b1 b2 in
+  wf r /\ length r = 3%nat /\ val r < gen_z191_modulus_attr /\ val r = (val [a0; a1; a2] + val [b0; b1; b2]) mod gen_z191_modulus_attr.
+Proof. intros Ha Hx Hb Hy. pose proof (proj1 gen_z191_modulus_val) as Hv. pose proof gen_z191_modulus_wf as Hm. pose proof gen_z191_modulus_odd as Ho. pose proof gen_z191_modulus_ne as Hne. rewrite gen_z191_add_assign_eq. rewrite <- Hv in *. exact (add_assign_spec gen_z191_modulus [a0; a1; a2] [b0; b1; b2] Hm Hne Ha Hb eq_refl eq_refl Hx Hy). Qed.
+Lemma gen_z191_sub_assign_spec a0 a1 a2 b0 b1 b2 :
+  wf [a0; a1; a2] -> val [a0; a1; a2] < gen_z191_modulus_attr -> wf [b0; b1; b2] -> val [b0; b1; b2] < gen_z191_modulus_attr ->
+  let r := gen_z191_sub_assign a0 a1 a2 b0 b1 b2 in
+  wf r /\ length r = 3%nat /\ val r < gen_z191_modulus_attr /\ val r = (val [a0; a1; a2] - val [b0; b1; b2]) mod gen_z191_modulus_attr.
+Proof. intros Ha Hx Hb Hy. pose proof (proj1 gen_z191_modulus_val) as Hv. pose proof gen_z191_modulus_wf as Hm. pose proof gen_z191_modulus_odd as Ho. pose proof gen_z191_modulus_ne as Hne. rewrite gen_z191_sub_assign_eq. rewrite <- Hv in *. exact (sub_assign_spec gen_z191_modulus [a0; a1; a2] [b0; b1; b2] Hm Ha Hb eq_refl eq_refl Hx Hy). Qed.
+Lemma gen_z191_double_in_place_spec a0 a1 a2 :
+  wf [a0; a1; a2] -> val [a0; a1; a2] < gen_z191_modulus_attr ->
+  let r := gen_z191_double_in_place a0 a1 a2 in
+  wf r /\ length r = 3%nat /\ val r < gen_z191_modulus_attr /\ val r = (2 * val [a0; a1; a2]) mod gen_z191_modulus_attr.
+Proof. intros Ha Hx. pose proof (proj1 gen_z191_modulus_val) as Hv. pose proof gen_z191_modulus_wf as Hm. pose proof gen_z191_modulus_odd as Ho. pose proof gen_z191_modulus_ne as Hne. rewrite gen_z191_double_in_place_eq. rewrite <- Hv in *. exact (double_in_place_spec gen_z191_modulus [a0; a1; a2] Hm Hne Ha eq_refl Hx). Qed.
+Lemma gen_z191_neg_in_place_spec a0 a1 a2 :
+  wf [a0; a1; a2] -> val [a0; a1; a2] < gen_z191_modulus_attr ->
+  let r := gen_z191_neg_in_place a0 a1 a2 in
+  wf r /\ length r = 3%nat /\ val r < gen_z191_modulus_attr /\ val r = (- val [a0; a1; a2]) mod gen_z191_modulus_attr.
+Proof. intros Ha Hx. pose proof (proj1 gen_z191_modulus_val) as Hv. pose proof gen_z191_modulus_wf as Hm. pose proof gen_z191_modulus_odd as Ho. pose proof gen_z191_modulus_ne as Hne. rewrite gen_z191_neg_in_place_eq. rewrite <- Hv in *. exact (neg_in_place_spec gen_z191_modulus [a0; a1; a2] Hm Ha eq_refl Hx). Qed.
+Lemma gen_z191_mul_assign_spec a0 a1 a2 b0 b1 b2 :
+  wf [a0; a1; a2] -> val [a0; a1; a2] < gen_z191_modulus_attr -> wf [b0; b1; b2] -> val [b0; b1; b2] < gen_z191_modulus_attr ->
+  let r := gen_z191_mul_assign (inv_of gen_z191_modulus) a0 a1 a2 b0 b1 b2 in
+  wf r /\ length r = 3%nat /\ val r < gen_z191_modulus_attr /\ (val r * Wn 3) mod gen_z191_modulus_attr = (val [a0; a1; a2] * val [b0; b1; b2]) mod gen_z191_modulus_attr.
+Proof. intros Ha Hx Hb Hy. pose proof (proj1 gen_z191_modulus_val) as Hv. pose proof gen_z191_modulus_wf as Hm. pose proof gen_z191_modulus_odd as Ho. pose proof gen_z191_modulus_ne as Hne. rewrite <- Hv in *. rewrite gen_z191_mul_assign_eq, mul_assign_w_derived_eq by auto. exact (mul_assign_spec true gen_z191_modulus [a0; a1; a2] [b0; b1; b2] Hm Ha Hb eq_refl eq_refl Ho Hx Hy). Qed.
+Lemma gen_z191_square_in_place_spec a0 a1 a2 :
+  wf [a0; a1; a2] -> val [a0; a1; a2] < gen_z191_modulus_attr ->
+  let r := gen_z191_square_in_place (inv_of gen_z191_modulus) a0 a1 a2 in
+  wf r /\ length r = 3%nat /\ val r < gen_z191_modulus_attr /\ (val r * Wn 3) mod gen_z191_modulus_attr = (val [a0; a1; a2] * val [a0; a1; a2]) mod gen_z191_modulus_attr.
+Proof. intros Ha Hx. pose proof (proj1 gen_z191_modulus_val) as Hv. pose proof gen_z191_modulus_wf as Hm. pose proof gen_z191_modulus_odd as Ho. pose proof gen_z191_modulus_ne as Hne. rewrite <- Hv in *. rewrite gen_z191_square_in_place_eq. exact (square_full_spec gen_z191_modulus [a0; a1; a2] Hm Ha eq_refl Ho Hx). Qed.
+Lemma gen_z191_mul_assign_model a0 a1 a2 b0 b1 b2 :
+  wf [a0; a1; a2] -> wf [b0; b1; b2] -> val [a0; a1; a2] < gen_z191_modulus_attr ->
+  gen_z191_mul_assign (inv_of gen_z191_modulus) a0 a1 a2 b0 b1 b2 = mul_assign true gen_z191_modulus [a0; a1; a2] [b0; b1; b2].
+Proof. intros Ha Hb Hx. pose proof (proj1 gen_z191_modulus_val) as Hv. pose proof gen_z191_modulus_wf as Hm. pose proof gen_z191_modulus_odd as Ho. pose proof gen_z191_modulus_ne as Hne. rewrite <- Hv in *. rewrite gen_z191_mul_assign_eq. apply mul_assign_w_derived_eq; auto. Qed.
+Lemma gen_z191_square_in_place_model a0 a1 a2 :
+  wf [a0; a1; a2] -> val [a0; a1; a2] < gen_z191_modulus_attr ->
+  gen_z191_square_in_place (inv_of gen_z191_modulus) a0 a1 a2 = square_in_place true gen_z191_modulus [a0; a1; a2].
+Proof. intros Ha Hx. pose proof (proj1 gen_z191_modulus_val) as Hv. pose proof gen_z191_modulus_wf as Hm. pose proof gen_z191_modulus_odd as Ho. pose proof gen_z191_modulus_ne as Hne. rewrite <- Hv in *. rewrite gen_z191_square_in_place_eq. cbv [square_in_place length Nat.eqb gen_z191_modulus]. reflexivity. Qed.
+
+(* ================= Z254: N = 4, 254 bits, no-carry true, spare bit true ================= *)
+Lemma gen_z254_modulus_val  :
+  val gen_z254_modulus = gen_z254_modulus_attr /\ length gen_z254_modulus = 4%nat /\ wf gen_z254_modulus /\ gen_z254_modulus_attr mod 2 = 1 /\
+  gen_z254_modulus_attr = 14474011154664524434223474861472669245494537506412736921034553445453175718117.
+Proof. split; [vm_compute; reflexivity|]. split; [reflexivity|]. split; [cbv [gen_z254_modulus]; lit_wf |]. split; [vm_compute; reflexivity | reflexivity]. Qed.
+Lemma gen_z254_modulus_wf : wf gen_z254_modulus. Proof. exact (proj1 (proj2 (proj2 gen_z254_modulus_val))). Qed.
+Lemma gen_z254_modulus_odd : val gen_z254_modulus mod 2 = 1. Proof. rewrite (proj1 gen_z254_modulus_val). exact (proj1 (proj2 (proj2 (proj2 gen_z254_modulus_val)))). Qed.
+Lemma gen_z254_modulus_ne : gen_z254_modulus <> []. Proof. discriminate. Qed.
+Lemma gen_z254_flags  :
+  has_spare_bit gen_z254_modulus = true /\ nocarry_macro gen_z254_modulus = true.
+Proof. split; vm_compute; reflexivity. Qed.
+Lemma gen_z254_spare : has_spare_bit gen_z254_modulus = true. Proof. exact (proj1 gen_z254_flags). Qed.
+Lemma gen_z254_nc : nocarry_macro gen_z254_modulus = true. Proof. exact (proj2 gen_z254_flags). Qed.
+Lemma gen_z254_add_with_carry_eq a0 a1 a2 a3 b0 b1 b2 b3 :
+  gen_z254_add_with_carry a0 a1 a2 a3 b0 b1 b2 b3 = add_with_carry [a0; a1; a2; a3] [b0; b1; b2; b3].
+Proof. cbv [gen_z254_add_with_carry add_with_carry add_chain]. crush. Qed.
+Lemma gen_z254_sub_with_borrow_eq a0 a1 a2 a3 b0 b1 b2 b3 :
+  gen_z254_sub_with_borrow a0 a1 a2 a3 b0 b1 b2 b3 = sub_with_borrow [a0; a1; a2; a3] [b0; b1; b2; b3].
+Proof. cbv [gen_z254_sub_with_borrow sub_with_borrow sub_chain]. crush. Qed.
+Lemma gen_z254_subtract_modulus_eq a0 a1 a2 a3 :
+  gen_z254_subtract_modulus a0 a1 a2 a3 = subtract_modulus gen_z254_modulus [a0; a1; a2; a3].
+Proof. cbv [gen_z254_subtract_modulus gen_z254_modulus subtract_modulus subtract_modulus_with_carry is_geq_modulus sub_with_borrow sub_chain add_with_carry add_chain fst snd negb orb andb]. gen_lits gen_z254_modulus. crush. Qed.
+Lemma gen_z254_subtract_modulus_with_carry_eq a0 a1 a2 a3 carry :
+  gen_z254_subtract_modulus_with_carry a0 a1 a2 a3 carry = subtract_modulus_with_carry gen_z254_modulus [a0; a1; a2; a3] carry.
+Proof. cbv [gen_z254_subtract_modulus_with_carry gen_z254_modulus subtract_modulus subtract_modulus_with_carry is_geq_modulus sub_with_borrow sub_chain add_with_carry add_chain fst snd negb orb andb]. gen_lits gen_z254_modulus. crush. Qed.
+Lemma gen_z254_add_assign_eq a0 a1 a2 a3 b0 b1 b2 b3 :
+  gen_z254_add_assign a0 a1 a2 a3 b0 b1 b2 b3 = add_assign gen_z254_modulus [a0; a1; a2; a3] [b0; b1; b2; b3].
+Proof. cbv [add_assign final_sub]. rewrite gen_z254_spare. cbv [gen_z254_add_assign gen_z254_modulus subtract_modulus subtract_modulus_with_carry is_geq_modulus sub_with_borrow sub_chain add_with_carry add_chain fst snd negb orb andb]. gen_lits gen_z254_modulus. crush. Qed.
+Lemma gen_z254_sub_assign_eq a0 a1 a2 a3 b0 b1 b2 b3 :
+  gen_z254_sub_assign a0 a1 a2 a3 b0 b1 b2 b3 = sub_assign gen_z254_modulus [a0; a1; a2; a3] [b0; b1; b2; b3].
+Proof. cbv [gen_z254_sub_assign gen_z254_modulus sub_assign sub_with_borrow sub_chain add_with_carry add_chain fst snd negb orb andb]. gen_lits gen_z254_modulus. crush. Qed.
+Lemma gen_z254_double_in_place_eq a0 a1 a2 a3 :
+  gen_z254_double_in_place a0 a1 a2 a3 = double_in_place gen_z254_modulus [a0; a1; a2; a3].
+Proof. cbv [double_in_place final_sub]. rewrite gen_z254_spare. cbv [gen_z254_double_in_place gen_z254_modulus mul2 mul2_chain subtract_modulus subtract_modulus_with_carry is_geq_modulus sub_with_borrow sub_chain add_with_carry add_chain fst snd negb orb andb]. gen_lits gen_z254_modulus. crush. Qed.
+Lemma gen_z254_neg_in_place_eq a0 a1 a2 a3 :
+  gen_z254_neg_in_place a0 a1 a2 a3 = neg_in_place gen_z254_modulus [a0; a1; a2; a3].
+Proof. cbv [gen_z254_neg_in_place gen_z254_modulus neg_in_place is_zero forallb sub_with_borrow sub_chain add_with_carry add_chain fst snd negb orb andb]. gen_lits gen_z254_modulus. crush. Qed.
+Lemma gen_z254_mul_assign_eq a0 a1 a2 a3 b0 b1 b2 b3 :
+  gen_z254_mul_assign (inv_of gen_z254_modulus) a0 a1 a2 a3 b0 b1 b2 b3 = mul_assign_w (nocarry_macro gen_z254_modulus) (has_spare_bit gen_z254_modulus) gen_z254_modulus [a0; a1; a2; a3] [b0; b1; b2; b3].
+Proof. rewrite gen_z254_spare, gen_z254_nc. cbv [gen_z254_mul_assign gen_z254_modulus mul_assign_w nc_rows_w nc_row_w nc_inner fold_left mul_without_cond_subtract red_rows mul_rows mac_row set_first skipn firstn length zeros repeat app Nat.add subtract_modulus subtract_modulus_with_carry is_geq_modulus sub_with_borrow sub_chain add_with_carry add_chain fst snd negb orb andb]. gen_lits gen_z254_modulus. crush. Qed.
+Lemma gen_z254_square_in_place_eq a0 a1 a2 a3 :
+  gen_z254_square_in_place (inv_of gen_z254_modulus) a0 a1 a2 a3 = square_full gen_z254_modulus [a0; a1; a2; a3].
+Proof. cbv [square_full final_sub]. rewrite gen_z254_spare. cbv [gen_z254_square_in_place gen_z254_modulus sq_offdiag shl1_chain sq_diag sq_red_rows subtract_modulus subtract_modulus_with_carry is_geq_modulus mul_rows mac_row set_first skipn firstn length zeros repeat app Nat.add sub_with_borrow sub_chain add_with_carry add_chain fst snd negb orb andb]. gen_lits gen_z254_modulus. crush_sq. Qed.
+Lemma gen_z254_add_assign_spec a0 a1 a2 a3 b0 b1 b2 b3 :
+  wf [a0; a1; a2; a3] -> val [a0; a1; a2; a3] < gen_z254_modulus_attr -> wf [b0; b1; b2; b3] -> val [b0; b1; b2; b3] < gen_z254_modulus_attr ->
+  let r := gen_z254_add_assign a0 a1 a2 a3 b0 b1 b2 b3 in
+  wf r /\ length r = 4%nat /\ val r < gen_z254_modulus_attr /\ val r = (val [a0; a1; a2; a3] + val [b0; b1; b2; b3]) mod gen_z254_modulus_attr.
+Proof. intros Ha Hx Hb Hy. pose proof (proj1 gen_z254_modulus_val) as Hv. pose proof gen_z254_modulus_wf as Hm. pose proof gen_z254_modulus_odd as Ho. pose proof gen_z254_modulus_ne as Hne. rewrite gen_z254_add_assign_eq. rewrite <- Hv in *. exact (add_assign_spec gen_z254_modulus [a0; a1; a2; a3] [b0; b1; b2; b3] Hm Hne Ha Hb eq_refl eq_refl Hx Hy). Qed.
+Lemma gen_z254_sub_assign_spec a0 a1 a2 a3 b0 b1 b2 b3 :
+  wf [a0; a1; a2; a3] -> val [a0; a1; a2; a3] < gen_z254_modulus_attr -> wf [b0; b1; b2; b3] -> val [b0; b1; b2; b3] < gen_z254_modulus_attr ->
+  let r := gen_z254_sub_assign a0 a1 a2 a3 b0 b1 b2 b3 in
+  wf r /\ length r = 4%nat /\ val r < gen_z254_modulus_attr /\ val r = (val [a0; a1; a2; a3] - val [b0; b1; b2; b3]) mod gen_z254_modulus_attr.
+Proof. intros Ha Hx Hb Hy. pose proof (proj1 gen_z254_modulus_val) as Hv. pose proof gen_z254_modulus_wf as Hm. pose proof gen_z254_modulus_odd as Ho. pose proof gen_z254_modulus_ne as Hne. rewrite gen_z254_sub_assign_eq. rewrite <- Hv in *. exact (sub_assign_spec gen_z254_modulus [a0; a1; a2; a3] [b0; b1; b2; b3] Hm Ha Hb eq_refl eq_refl Hx Hy). Qed.
+Lemma gen_z254_double_in_place_spec a0 a1 a2 a3 :
+  wf [a0; a1; a2; a3] -> val [a0; a1; a2; a3] < gen_z254_modulus_attr ->
+  let r := gen_z254_double_in_place a0 a1 a2 a3 in
+  wf r /\ length r = 4%nat /\ val r < gen_z254_modulus_attr /\ val r = (2 * val [a0; a1; a2; a3]) mod gen_z254_modulus_attr.
+Proof. intros Ha Hx. pose proof (proj1 gen_z254_modulus_val) as Hv. pose proof gen_z254_modulus_wf as Hm. pose proof gen_z254_modulus_odd as Ho. pose proof gen_z254_modulus_ne as Hne. rewrite gen_z254_double_in_place_eq. rewrite <- Hv in *. exact (double_in_place_spec gen_z254_modulus [a0; a1; a2; a3] Hm Hne Ha eq_refl Hx). Qed.
+Lemma gen_z254_neg_in_place_spec a0 a1 a2 a3 :
+  wf [a0; a1; a2; a3] -> val [a0; a1; a2; a3] < gen_z254_modulus_attr ->
+  let r := gen_z254_neg_in_place a0 a1 a2 a3 in
+  wf r /\ length r = 4%nat /\ val r < gen_z254_modulus_attr /\ val r = (- val [a0; a1; a2; a3]) mod gen_z254_modulus_attr.
+Proof. intros Ha Hx. pose proof (proj1 gen_z254_modulus_val) as Hv. pose proof gen_z254_modulus_wf as Hm. pose proof gen_z254_modulus_odd as Ho. pose proof gen_z254_modulus_ne as Hne. rewrite gen_z254_neg_in_place_eq. rewrite <- Hv in *. exact (neg_in_place_spec gen_z254_modulus [a0; a1; a2; a3] Hm Ha eq_refl Hx). Qed.
+Lemma gen_z254_mul_assign_spec a0 a1 a2 a3 b0 b1 b2 b3 :
+  wf [a0; a1; a2; a3] -> val [a0; a1; a2; a3] < gen_z254_modulus_attr -> wf [b0; b1; b2; b3] -> val [b0; b1; b2; b3] < gen_z254_modulus_attr ->
+  let r := gen_z254_mul_assign (inv_of gen_z254_modulus) a0 a1 a2 a3 b0 b1 b2 b3 in
+  wf r /\ length r = 4%nat /\ val r < gen_z254_modulus_attr /\ (val r * Wn 4) mod gen_z254_modulus_attr = (val [a0; a1; a2; a3] * val [b0; b1; b2; b3]) mod gen_z254_modulus_attr.
+Proof. intros Ha Hx Hb Hy. pose proof (proj1 gen_z254_modulus_val) as Hv. pose proof gen_z254_modulus_wf as Hm. pose proof gen_z254_modulus_odd as Ho. pose proof gen_z254_modulus_ne as Hne. rewrite <- Hv in *. rewrite gen_z254_mul_assign_eq, mul_assign_w_derived_eq by auto. exact (mul_assign_spec true gen_z254_modulus [a0; a1; a2; a3] [b0; b1; b2; b3] Hm Ha Hb eq_refl eq_refl Ho Hx Hy). Qed.
+Lemma gen_z254_square_in_place_spec a0 a1 a2 a3 :
+  wf [a0; a1; a2; a3] -> val [a0; a1; a2; a3] < gen_z254_modulus_attr ->
+  let r := gen_z254_square_in_place (inv_of gen_z254_modulus) a0 a1 a2 a3 in
+  wf r /\ length r = 4%nat /\ val r < gen_z254_modulus_attr /\ (val r * Wn 4) mod gen_z254_modulus_attr = (val [a0; a1; a2; a3] * val [a0; a1; a2; a3]) mod gen_z254_modulus_attr.
+Proof. intros Ha Hx. pose proof (proj1 gen_z254_modulus_val) as Hv. pose proof gen_z254_modulus_wf as Hm. pose proof gen_z254_modulus_odd as Ho. pose proof gen_z254_modulus_ne as Hne. rewrite <- Hv in *. rewrite gen_z254_square_in_place_eq. exact (square_full_spec gen_z254_modulus [a0; a1; a2; a3] Hm Ha eq_refl Ho Hx). Qed.
+Lemma gen_z254_mul_assign_model a0 a1 a2 a3 b0 b1 b2 b3 :
+  wf [a0; a1; a2; a3] -> wf [b0; b1; b2; b3] -> val [a0; a1; a2; a3] < gen_z254_modulus_attr ->
+  gen_z254_mul_assign (inv_of gen_z254_modulus) a0 a1 a2 a3 b0 b1 b2 b3 = mul_assign true gen_z254_modulus [a0; a1; a2; a3] [b0; b1; b2; b3].
+Proof. intros Ha Hb Hx. pose proof (proj1 gen_z254_modulus_val) as Hv. pose proof gen_z254_modulus_wf as Hm. pose proof gen_z254_modulus_odd as Ho. pose proof gen_z254_modulus_ne as Hne. rewrite <- Hv in *. rewrite gen_z254_mul_assign_eq. apply mul_assign_w_derived_eq; auto. Qed.
+Lemma gen_z254_square_in_place_model a0 a1 a2 a3 :
+  wf [a0; a1; a2; a3] -> val [a0; a1; a2; a3] < gen_z254_modulus_attr ->
+  gen_z254_square_in_place (inv_of gen_z254_modulus) a0 a1 a2 a3 = square_in_place true gen_z254_modulus [a0; a1; a2; a3].
+Proof. intros Ha Hx. pose proof (proj1 gen_z254_modulus_val) as Hv. pose proof gen_z254_modulus_wf as Hm. pose proof gen_z254_modulus_odd as Ho. pose proof gen_z254_modulus_ne as Hne. rewrite <- Hv in *. rewrite gen_z254_square_in_place_eq. cbv [square_in_place length Nat.eqb gen_z254_modulus]. reflexivity. Qed.
+
+(* ================= Z255: N = 4, 255 bits, no-carry false, spare bit true ================= *)
+Lemma gen_z255_modulus_val  :
+  val gen_z255_modulus = gen_z255_modulus_attr /\ length gen_z255_modulus = 4%nat /\ wf gen_z255_modulus /\ gen_z255_modulus_attr mod 2 = 1 /\
+  gen_z255_modulus_attr = 57896044618658097705508390768957273162799202909612615603626436559492530307207.
+Proof. split; [vm_compute; reflexivity|]. split; [reflexivity|]. split; [cbv [gen_z255_modulus]; lit_wf |]. split; [vm_compute; reflexivity | reflexivity]. Qed.
+Lemma gen_z255_modulus_wf : wf gen_z255_modulus. Proof. exact (proj1 (proj2 (proj2 gen_z255_modulus_val))). Qed.
+Lemma gen_z255_modulus_odd : val gen_z255_modulus mod 2 = 1. Proof. rewrite (proj1 gen_z255_modulus_val). exact (proj1 (proj2 (proj2 (proj2 gen_z255_modulus_val)))). Qed.
+Lemma gen_z255_modulus_ne : gen_z255_modulus <> []. Proof. discriminate. Qed.
+Lemma gen_z255_flags  :
+  has_spare_bit gen_z255_modulus = true /\ nocarry_macro gen_z255_modulus = false.
+Proof. split; vm_compute; reflexivity. Qed.
+Lemma gen_z255_spare : has_spare_bit gen_z255_modulus = true. Proof. exact (proj1 gen_z255_flags). Qed.
+Lemma gen_z255_nc : nocarry_macro gen_z255_modulus = false. Proof. exact (proj2 gen_z255_flags). Qed.
+Lemma gen_z255_add_with_carry_eq a0 a1 a2 a3 b0 b1 b2 b3 :
+  gen_z255_add_with_carry a0 a1 a2 a3 b0 b1 b2 b3 = add_with_carry [a0; a1; a2; a3] [b0; b1; b2; b3].
+Proof. cbv [gen_z255_add_with_carry add_with_carry add_chain]. crush. Qed.
+Lemma gen_z255_sub_with_borrow_eq a0 a1 a2 a3 b0 b1 b2 b3 :
+  gen_z255_sub_with_borrow a0 a1 a2 a3 b0 b1 b2 b3 = sub_with_borrow [a0; a1; a2; a3] [b0; b1; b2; b3].
+Proof. cbv [gen_z255_sub_with_borrow sub_with_borrow sub_chain]. crush. Qed.
+Lemma gen_z255_subtract_modulus_eq a0 a1 a2 a3 :
+  gen_z255_subtract_modulus a0 a1 a2 a3 = subtract_modulus gen_z255_modulus [a0; a1; a2; a3].
+Proof. cbv [gen_z255_subtract_modulus gen_z255_modulus subtract_modulus subtract_modulus_with_carry is_geq_modulus sub_with_borrow sub_chain add_with_carry add_chain fst snd negb orb andb]. gen_lits gen_z255_modulus. crush. Qed.
+Lemma gen_z255_subtract_modulus_with_carry_eq a0 a1 a2 a3 carry :
+  gen_z255_subtract_modulus_with_carry a0 a1 a2 a3 carry = subtract_modulus_with_carry gen_z255_modulus [a0; a1; a2; a3] carry.
+Proof. cbv [gen_z255_subtract_modulus_with_carry gen_z255_modulus subtract_modulus subtract_modulus_with_carry is_geq_modulus sub_with_borrow sub_chain add_with_carry add_chain fst snd negb orb andb]. gen_lits gen_z255_modulus. crush. Qed.
+Lemma gen_z255_add_assign_eq a0 a1 a2 a3 b0 b1 b2 b3 :
+  gen_z255_add_assign a0 a1 a2 a3 b0 b1 b2 b3 = add_assign gen_z255_modulus [a0; a1; a2; a3] [b0; b1; b2; b3].
+Proof. cbv [add_assign final_sub]. rewrite gen_z255_spare. cbv [gen_z255_add_assign gen_z255_modulus subtract_modulus subtract_modulus_with_carry is_geq_modulus sub_with_borrow sub_chain add_with_carry add_chain fst snd negb orb andb]. gen_lits gen_z255_modulus. crush. Qed.
+Lemma gen_z255_sub_assign_eq a0 a1 a2 a3 b0 b1 b2 b3 :
+  gen_z255_sub_assign a0 a1 a2 a3 b0 b1 b2 b3 = sub_assign gen_z255_modulus [a0; a1; a2; a3] [b0; b1; b2; b3].
+Proof. cbv [gen_z255_sub_assign gen_z255_modulus sub_assign sub_with_borrow sub_chain add_with_carry add_chain fst snd negb orb andb]. gen_lits gen_z255_modulus. crush. Qed.
+Lemma gen_z255_double_in_place_eq a0 a1 a2 a3 :
+  gen_z255_double_in_place a0 a1 a2 a3 = double_in_place gen_z255_modulus [a0; a1; a2; a3].
+Proof. cbv [double_in_place final_sub]. rewrite gen_z255_spare. cbv [gen_z255_double_in_place gen_z255_modulus mul2 mul2_chain subtract_modulus subtract_modulus_with_carry is_geq_modulus sub_with_borrow sub_chain add_with_carry add_chain fst snd negb orb andb]. gen_lits gen_z255_modulus. crush. Qed.
+Lemma gen_z255_neg_in_place_eq a0 a1 a2 a3 :
+  gen_z255_neg_in_place a0 a1 a2 a3 = neg_in_place gen_z255_modulus [a0; a1; a2; a3].
+Proof. cbv [gen_z255_neg_in_place gen_z255_modulus neg_in_place is_zero forallb sub_with_borrow sub_chain add_with_carry add_chain fst snd negb orb andb]. gen_lits gen_z255_modulus. crush. Qed.
+Lemma gen_z255_mul_assign_eq a0 a1 a2 a3 b0 b1 b2 b3 :
+  gen_z255_mul_assign (inv_of gen_z255_modulus) a0 a1 a2 a3 b0 b1 b2 b3 = mul_assign_w (nocarry_macro gen_z255_modulus) (has_spare_bit gen_z255_modulus) gen_z255_modulus [a0; a1; a2; a3] [b0; b1; b2; b3].
+Proof. rewrite gen_z255_spare, gen_z255_nc. cbv [gen_z255_mul_assign gen_z255_modulus mul_assign_w nc_rows_w nc_row_w nc_inner fold_left mul_without_cond_subtract red_rows mul_rows mac_row set_first skipn firstn length zeros repeat app Nat.add subtract_modulus subtract_modulus_with_carry is_geq_modulus sub_with_borrow sub_chain add_with_carry add_chain fst snd negb orb andb]. gen_lits gen_z255_modulus. crush. Qed.
+Lemma gen_z255_square_in_place_eq a0 a1 a2 a3 :
+  gen_z255_square_in_place (inv_of gen_z255_modulus) a0 a1 a2 a3 = square_full gen_z255_modulus [a0; a1; a2; a3].
+Proof. cbv [square_full final_sub]. rewrite gen_z255_spare. cbv [gen_z255_square_in_place gen_z255_modulus sq_offdiag shl1_chain sq_diag sq_red_rows subtract_modulus subtract_modulus_with_carry is_geq_modulus mul_rows mac_row set_first skipn firstn length zeros repeat app Nat.add sub_with_borrow sub_chain add_with_carry add_chain fst snd negb orb andb]. gen_lits gen_z255_modulus. crush_sq. Qed.
+Lemma gen_z255_add_assign_spec a0 a1 a2 a3 b0 b1 b2 b3 :
+  wf [a0; a1; a2; a3] -> val [a0; a1; a2; a3] < gen_z255_modulus_attr -> wf [b0; b1; b2; b3] -> val [b0; b1; b2; b3] < gen_z255_modulus_attr ->
+  let r := gen_z255_add_assign a0 a1 a2 a3 b0 b1 b2 b3 in
+  wf r /\ length r = 4%nat /\ val r < gen_z255_modulus_attr /\ val r = (val [a0; a1; a2; a3] + val [b0; b1; b2; b3]) mod gen_z255_modulus_attr.
+Proof. intros Ha Hx Hb Hy. pose proof (proj1 gen_z255_modulus_val) as Hv. pose proof gen_z255_modulus_wf as Hm. pose proof gen_z255_modulus_odd as Ho. pose proof gen_z255_modulus_ne as Hne. rewrite gen_z255_add_assign_eq. rewrite <- Hv in *. exact (add_assign_spec gen_z255_modulus [a0; a1; a2; a3] [b0; b1; b2; b3] Hm Hne Ha Hb eq_refl eq_refl Hx Hy). Qed.
+Lemma gen_z255_sub_assign_spec a0 a1 a2 a3 b0 b1 b2 b3 :
+  wf [a0; a1; a2; a3] -> val [a0; a1; a2; a3] < gen_z255_modulus_attr -> wf [b0; b1; b2; b3] -> val [b0; b1; b2; b3] < gen_z255_modulus_attr ->
+  let r := gen_z255_sub_assign a0 a1 a2 a3 b0 b1 b2 b3 in
+  wf r /\ length r = 4%nat /\ val r < gen_z255_modulus_attr /\ val r = (val [a0; a1; a2; a3] - val [b0; b1; b2; b3]) mod gen_z255_modulus_attr.
+Proof. intros Ha Hx Hb Hy. pose proof (proj1 gen_z255_modulus_val) as Hv. pose proof gen_z255_modulus_wf as Hm. pose proof gen_z255_modulus_odd as Ho. pose proof gen_z255_modulus_ne as Hne. rewrite gen_z255_sub_assign_eq. rewrite <- Hv in *. exact (sub_assign_spec gen_z255_modulus [a0; a1; a2; a3] [b0; b1; b2; b3] Hm Ha Hb eq_refl eq_refl Hx Hy). Qed.
+Lemma gen_z255_double_in_place_spec a0 a1 a2 a3 :
+  wf [a0; a1; a2; a3] -> val [a0; a1; a2; a3] < gen_z255_modulus_attr ->
+  let r := gen_z255_double_in_place a0 a1 a2 a3 in
+  wf r /\ length r = 4%nat /\ val r < gen_z255_modulus_attr /\ val r = (2 * val [a0; a1; a2; a3]) mod gen_z255_modulus_attr.
+Proof. intros Ha Hx. pose proof (proj1 gen_z255_modulus_val) as Hv. pose proof gen_z255_modulus_wf as Hm. pose proof gen_z255_modulus_odd as Ho. pose proof gen_z255_modulus_ne as Hne. rewrite gen_z255_double_in_place_eq. rewrite <- Hv in *. exact (double_in_place_spec gen_z255_modulus [a0; a1; a2; a3] Hm Hne Ha eq_refl Hx). Qed.
+Lemma gen_z255_neg_in_place_spec a0 a1 a2 a3 :
+  wf [a0; a1; a2; a3] -> val [a0; a1; a2; a3] < gen_z255_modulus_attr ->
+  let r := gen_z255_neg_in_place a0 a1 a2 a3 in
+  wf r /\ length r = 4%nat /\ val r < gen_z255_modulus_attr /\ val r = (- val [a0; a1; a2; a3]) mod gen_z255_modulus_attr.
+Proof. intros Ha Hx. pose proof (proj1 gen_z255_modulus_val) as Hv. pose proof gen_z255_modulus_wf as Hm. pose proof gen_z255_modulus_odd as Ho. pose proof gen_z255_modulus_ne as Hne. rewrite gen_z255_neg_in_place_eq. rewrite <- Hv in *. exact (neg_in_place_spec gen_z255_modulus [a0; a1; a2; a3] Hm Ha eq_refl Hx). Qed.
+Lemma gen_z255_mul_assign_spec a0 a1 a2 a3 b0 b1 b2 b3 :
+  wf [a0; a1; a2; a3] -> val [a0; a1; a2; a3] < gen_z255_modulus_attr -> wf [b0; b1; b2; b3] -> val [b0; b1; b2; b3] < gen_z255_modulus_attr ->
+  let r := gen_z255_mul_assign (inv_of gen_z255_modulus) a0 a1 a2 a3 b0 b1 b2 b3 in
+  wf r /\ length r = 4%nat /\ val r < gen_z255_modulus_attr /\ (val r * Wn 4) mod gen_z255_modulus_attr = (val [a0; a1; a2; a3] * val [b0; b1; b2; b3]) mod gen_z255_modulus_attr.
+Proof. intros Ha Hx Hb Hy. pose proof (proj1 gen_z255_modulus_val) as Hv. pose proof gen_z255_modulus_wf as Hm. pose proof gen_z255_modulus_odd as Ho. pose proof gen_z255_modulus_ne as Hne. rewrite <- Hv in *. rewrite gen_z255_mul_assign_eq, mul_assign_w_derived_eq by auto. exact (mul_assign_spec true gen_z255_modulus [a0; a1; a2; a3] [b0; b1; b2; b3] Hm Ha Hb eq_refl eq_refl Ho Hx Hy). Qed.
+Lemma gen_z255_square_in_place_spec a0 a1 a2 a3 :
+  wf [a0; a1; a2; a3] -> val [a0; a1; a2; a3] < gen_z255_modulus_attr ->
+  let r := gen_z255_square_in_place (inv_of gen_z255_modulus) a0 a1 a2 a3 in
+  wf r /\ length r = 4%nat /\ val r < gen_z255_modulus_attr /\ (val r * Wn 4) mod gen_z255_modulus_attr = (val [a0; a1; a2; a3] * val [a0; a1; a2; a3]) mod gen_z255_modulus_attr.
+Proof. intros Ha Hx. pose proof (proj1 gen_z255_modulus_val) as Hv. pose proof gen_z255_modulus_wf as Hm. pose proof gen_z255_modulus_odd as Ho. pose proof gen_z255_modulus_ne as Hne. rewrite <- Hv in *. rewrite gen_z255_square_in_place_eq. exact (square_full_spec gen_z255_modulus [a0; a1; a2; a3] Hm Ha eq_refl Ho Hx). Qed.
+Lemma gen_z255_mul_assign_model a0 a1 a2 a3 b0 b1 b2 b3 :
+  wf [a0; a1; a2; a3] -> wf [b0; b1; b2; b3] -> val [a0; a1; a2; a3] < gen_z255_modulus_attr ->
+  gen_z255_mul_assign (inv_of gen_z255_modulus) a0 a1 a2 a3 b0 b1 b2 b3 = mul_assign true gen_z255_modulus [a0; a1; a2; a3] [b0; b1; b2; b3].
+Proof. intros Ha Hb Hx. pose proof (proj1 gen_z255_modulus_val) as Hv. pose proof gen_z255_modulus_wf as Hm. pose proof gen_z255_modulus_odd as Ho. pose proof gen_z255_modulus_ne as Hne. rewrite <- Hv in *. rewrite gen_z255_mul_assign_eq. apply mul_assign_w_derived_eq; auto. Qed.
+Lemma gen_z255_square_in_place_model a0 a1 a2 a3 :
+  wf [a0; a1; a2; a3] -> val [a0; a1; a2; a3] < gen_z255_modulus_attr ->
+  gen_z255_square_in_place (inv_of gen_z255_modulus) a0 a1 a2 a3 = square_in_place true gen_z255_modulus [a0; a1; a2; a3].
+Proof. intros Ha Hx. pose proof (proj1 gen_z255_modulus_val) as Hv. pose proof gen_z255_modulus_wf as Hm. pose proof gen_z255_modulus_odd as Ho. pose proof gen_z255_modulus_ne as Hne. rewrite <- Hv in *. rewrite gen_z255_square_in_place_eq. cbv [square_in_place length Nat.eqb gen_z255_modulus]. reflexivity. Qed.
+
+(* ================= P124: N = 2, 124 bits, no-carry true, spare bit true ================= *)
+Lemma gen_p124_modulus_val  :
+  val gen_p124_modulus = gen_p124_modulus_attr /\ length gen_p124_modulus = 2%nat /\ wf gen_p124_modulus /\ gen_p124_modulus_attr mod 2 = 1 /\
+  gen_p124_modulus_attr = 21267647932558653948014168890775961601.
+Proof. split; [vm_compute; reflexivity|]. split; [reflexivity|]. split; [cbv [gen_p124_modulus]; lit_wf |]. split; [vm_compute; reflexivity | reflexivity]. Qed.
+Lemma gen_p124_modulus_wf : wf gen_p124_modulus. Proof. exact (proj1 (proj2 (proj2 gen_p124_modulus_val))). Qed.
+Lemma gen_p124_modulus_odd : val gen_p124_modulus mod 2 = 1. Proof. rewrite (proj1 gen_p124_modulus_val). exact (proj1 (proj2 (proj2 (proj2 gen_p124_modulus_val)))). Qed.
+Lemma gen_p124_modulus_ne : gen_p124_modulus <> []. Proof. discriminate. Qed.
+Lemma gen_p124_flags  :
+  has_spare_bit gen_p124_modulus = true /\ nocarry_macro gen_p124_modulus = true.
+Proof. split; vm_compute; reflexivity. Qed.
+Lemma gen_p124_spare : has_spare_bit gen_p124_modulus = true. Proof. exact (proj1 gen_p124_flags). Qed.
+Lemma gen_p124_nc : nocarry_macro gen_p124_modulus = true. Proof. exact (proj2 gen_p124_flags). Qed.
+Lemma gen_p124_add_with_carry_eq a0 a1 b0 b1 :
+  gen_p124_add_with_carry a0 a1 b0 b1 = add_with_carry [a0; a1] [b0; b1].
+Proof. cbv [gen_p124_add_with_carry add_with_carry add_chain]. crush. Qed.
+Lemma gen_p124_sub_with_borrow_eq a0 a1 b0 b1 :
+  gen_p124_sub_with_borrow a0 a1 b0 b1 = sub_with_borrow [a0; a1] [b0; b1].
+Proof. cbv [gen_p124_sub_with_borrow sub_with_borrow sub_chain]. crush. Qed.
+Lemma gen_p124_subtract_modulus_eq a0 a1 :
+  gen_p124_subtract_modulus a0 a1 = subtract_modulus gen_p124_modulus [a0; a1].
+Proof. cbv [gen_p124_subtract_modulus gen_p124_modulus subtract_modulus subtract_modulus_with_carry is_geq_modulus sub_with_borrow sub_chain add_with_carry add_chain fst snd negb orb andb]. gen_lits gen_p124_modulus. crush. Qed.
+Lemma gen_p124_subtract_modulus_with_carry_eq a0 a1 carry :
+  gen_p124_subtract_modulus_with_carry a0 a1 carry = subtract_modulus_with_carry gen_p124_modulus [a0; a1] carry.
+Proof. cbv [gen_p124_subtract_modulus_with_carry gen_p124_modulus subtract_modulus subtract_modulus_with_carry is_geq_modulus sub_with_borrow sub_chain add_with_carry add_chain fst snd negb orb andb]. gen_lits gen_p124_modulus. crush. Qed.
+Lemma gen_p124_add_assign_eq a0 a1 b0 b1 :
+  gen_p124_add_assign a0 a1 b0 b1 = add_assign gen_p124_modulus [a0; a1] [b0; b1].
+Proof. cbv [add_assign final_sub]. rewrite gen_p124_spare. cbv [gen_p124_add_assign gen_p124_modulus subtract_modulus subtract_modulus_with_carry is_geq_modulus sub_with_borrow sub_chain add_with_carry add_chain fst snd negb orb andb]. gen_lits gen_p124_modulus. crush. Qed.
+Lemma gen_p124_sub_assign_eq a0 a1 b0 b1 :
+  gen_p124_sub_assign a0 a1 b0 b1 = sub_assign gen_p124_modulus [a0; a1] [b0; b1].
+Proof. cbv [gen_p124_sub_assign gen_p124_modulus sub_assign sub_with_borrow sub_chain add_with_carry add_chain fst snd negb orb andb]. gen_lits gen_p124_modulus. crush. Qed.
+Lemma gen_p124_double_in_place_eq a0 a1 :
+  gen_p124_double_in_place a0 a1 = double_in_place gen_p124_modulus [a0; a1].
+Proof. cbv [double_in_place final_sub]. rewrite gen_p124_spare. cbv [gen_p124_double_in_place gen_p124_modulus mul2 mul2_chain subtract_modulus subtract_modulus_with_carry is_geq_modulus sub_with_borrow sub_chain add_with_carry add_chain fst snd negb orb andb]. gen_lits gen_p124_modulus. crush. Qed.
+Lemma gen_p124_neg_in_place_eq a0 a1 :
+  gen_p124_neg_in_place a0 a1 = neg_in_place gen_p124_modulus [a0; a1].
+Proof. cbv [gen_p124_neg_in_place gen_p124_modulus neg_in_place is_zero forallb sub_with_borrow sub_chain add_with_carry add_chain fst snd negb orb andb]. gen_lits gen_p124_modulus. crush. Qed.
+Lemma gen_p124_mul_assign_eq a0 a1 b0 b1 :
+  gen_p124_mul_assign (inv_of gen_p124_modulus) a0 a1 b0 b1 = mul_assign_w (nocarry_macro gen_p124_modulus) (has_spare_bit gen_p124_modulus) gen_p124_modulus [a0; a1] [b0; b1].
+Proof. rewrite gen_p124_spare, gen_p124_nc. cbv [gen_p124_mul_assign gen_p124_modulus mul_assign_w nc_rows_w nc_row_w nc_inner fold_left mul_without_cond_subtract red_rows mul_rows mac_row set_first skipn firstn length zeros repeat app Nat.add subtract_modulus subtract_modulus_with_carry is_geq_modulus sub_with_borrow sub_chain add_with_carry add_chain fst snd negb orb andb]. gen_lits gen_p124_modulus. crush. Qed.
+Lemma gen_p124_square_in_place_eq a0 a1 :
+  gen_p124_square_in_place (inv_of gen_p124_modulus) a0 a1 = square_full gen_p124_modulus [a0; a1].
+Proof. cbv [square_full final_sub]. rewrite gen_p124_spare. cbv [gen_p124_square_in_place gen_p124_modulus sq_offdiag shl1_chain sq_diag sq_red_rows subtract_modulus subtract_modulus_with_carry is_geq_modulus mul_rows mac_row set_first skipn firstn length zeros repeat app Nat.add sub_with_borrow sub_chain add_with_carry add_chain fst snd negb orb andb]. gen_lits gen_p124_modulus. crush_sq. Qed.
+Lemma gen_p124_add_assign_spec a0 a1 b0 b1 :
+  wf [a0; a1] -> val [a0; a1] < gen_p124_modulus_attr -> wf [b0; b1] -> val [b0; b1] < gen_p124_modulus_attr ->
+  let r := gen_p124_add_assign a0 a1 b0 b1 in
+  wf r /\ length r = 2%nat /\ val r < gen_p124_modulus_attr /\ val r = (val [a0; a1] + val [b0; b1]) mod gen_p124_modulus_attr.
+Proof. intros Ha Hx Hb Hy. pose proof (proj1 gen_p124_modulus_val) as Hv. pose proof gen_p124_modulus_wf as Hm. pose proof gen_p124_modulus_odd as Ho. pose proof gen_p124_modulus_ne as Hne. rewrite gen_p124_add_assign_eq. rewrite <- Hv in *. exact (add_assign_spec gen_p124_modulus [a0; a1] [b0; b1] Hm Hne Ha Hb eq_refl eq_refl Hx Hy). Qed.
+Lemma gen_p124_sub_assign_spec a0 a1 b0 b1 :
+  wf [a0; a1] -> val [a0; a1] < gen_p124_modulus_attr -> wf [b0; b1] -> val [b0; b1] < gen_p124_modulus_attr ->
+  let r := gen_p124_sub_assign a0 a1 b0 b1 in
+  wf r /\ length r = 2%nat /\ val r < gen_p124_modulus_attr /\ val r = (val [a0; a1] - val [b0; b1]) mod gen_p124_modulus_attr.
+Proof. intros Ha Hx Hb Hy. pose proof (proj1 gen_p124_modulus_val) as Hv. pose proof gen_p124_modulus_wf as Hm. pose proof gen_p124_modulus_odd as Ho. pose proof gen_p124_modulus_ne as Hne. rewrite gen_p124_sub_assign_eq. rewrite <- Hv in *. exact (sub_assign_spec gen_p124_modulus [a0; a1] [b0; b1] Hm Ha Hb eq_refl eq_refl Hx Hy). Qed.
+Lemma gen_p124_double_in_place_spec a0 a1 :
+  wf [a0; a1] -> val [a0; a1] < gen_p124_modulus_attr ->
+  let r := gen_p124_double_in_place a0 a1 in
+  wf r /\ length r = 2%nat /\ val r < gen_p124_modulus_attr /\ val r = (2 * val [a0; a1]) mod gen_p124_modulus_attr.
+Proof. intros Ha Hx. pose proof (proj1 gen_p124_modulus_val) as Hv. pose proof gen_p124_modulus_wf as Hm. pose proof gen_p124_modulus_odd as Ho. pose proof gen_p124_modulus_ne as Hne. rewrite gen_p124_double_in_place_eq. rewrite <- Hv in *. exact (double_in_place_spec gen_p124_modulus [a0; a1] Hm Hne Ha eq_refl Hx). Qed.
+Lemma gen_p124_neg_in_place_spec a0 a1 :
+  wf [a0; a1] -> val [a0; a1] < gen_p124_modulus_attr ->
+  let r := gen_p124_neg_in_place a0 a1 in
+  wf r /\ length r = 2%nat /\ val r < gen_p124_modulus_attr /\ val r = (- val [a0; a1]) mod gen_p124_modulus_attr.
+Proof. intros Ha Hx. pose proof (proj1 gen_p124_modulus_val) as Hv. pose proof gen_p124_modulus_wf as Hm. pose proof gen_p124_modulus_odd as Ho. pose proof gen_p124_modulus_ne as Hne. rewrite gen_p124_neg_in_place_eq. rewrite <- Hv in *. exact (neg_in_place_spec gen_p124_modulus [a0; a1] Hm Ha eq_refl Hx). Qed.
+Lemma gen_p124_mul_assign_spec a0 a1 b0 b1 :
+  wf [a0; a1] -> val [a0; a1] < gen_p124_modulus_attr -> wf [b0; b1] -> val [b0; b1] < gen_p124_modulus_attr ->
+  let r := gen_p124_mul_assign (inv_of gen_p124_modulus) a0 a1 b0 b1 in
+  wf r /\ length r = 2%nat /\ val r < gen_p124_modulus_attr /\ (val r * Wn 2) mod gen_p124_modulus_attr = (val [a0; a1] * val [b0; b1]) mod gen_p124_modulus_attr.
+Proof. intros Ha Hx Hb Hy. pose proof (proj1 gen_p124_modulus_val) as Hv. pose proof gen_p124_modulus_wf as Hm. pose proof gen_p124_modulus_odd as Ho. pose proof gen_p124_modulus_ne as Hne. rewrite <- Hv in *. rewrite gen_p124_mul_assign_eq, mul_assign_w_derived_eq by auto. exact (mul_assign_spec true gen_p124_modulus [a0; a1] [b0; b1] Hm Ha Hb eq_refl eq_refl Ho Hx Hy). Qed.
+Lemma gen_p124_square_in_place_spec a0 a1 :
+  wf [a0; a1] -> val [a0; a1] < gen_p124_modulus_attr ->
+  let r := gen_p124_square_in_place (inv_of gen_p124_modulus) a0 a1 in
+  wf r /\ length r = 2%nat /\ val r < gen_p124_modulus_attr /\ (val r * Wn 2) mod gen_p124_modulus_attr = (val [a0; a1] * val [a0; a1]) mod gen_p124_modulus_attr.
+Proof. intros Ha Hx. pose proof (proj1 gen_p124_modulus_val) as Hv. pose proof gen_p124_modulus_wf as Hm. pose proof gen_p124_modulus_odd as Ho. pose proof gen_p124_modulus_ne as Hne. rewrite <- Hv in *. rewrite gen_p124_square_in_place_eq. exact (square_full_spec gen_p124_modulus [a0; a1] Hm Ha eq_refl Ho Hx). Qed.
+Lemma gen_p124_mul_assign_model a0 a1 b0 b1 :
+  wf [a0; a1] -> wf [b0; b1] -> val [a0; a1] < gen_p124_modulus_attr ->
+  gen_p124_mul_assign (inv_of gen_p124_modulus) a0 a1 b0 b1 = mul_assign true gen_p124_modulus [a0; a1] [b0; b1].
+Proof. intros Ha Hb Hx. pose proof (proj1 gen_p124_modulus_val) as Hv. pose proof gen_p124_modulus_wf as Hm. pose proof gen_p124_modulus_odd as Ho. pose proof gen_p124_modulus_ne as Hne. rewrite <- Hv in *. rewrite gen_p124_mul_assign_eq. apply mul_assign_w_derived_eq; auto. Qed.
+Lemma gen_p124_square_in_place_model a0 a1 :
+  wf [a0; a1] -> val [a0; a1] < gen_p124_modulus_attr ->
+  gen_p124_square_in_place (inv_of gen_p124_modulus) a0 a1 = square_in_place true gen_p124_modulus [a0; a1].
+Proof. intros Ha Hx. pose proof (proj1 gen_p124_modulus_val) as Hv. pose proof gen_p124_modulus_wf as Hm. pose proof gen_p124_modulus_odd as Ho. pose proof gen_p124_modulus_ne as Hne. rewrite <- Hv in *. rewrite gen_p124_square_in_place_eq. cbv [square_in_place length Nat.eqb gen_p124_modulus]. reflexivity. Qed.
 
 (* ================= sum_of_products::<M> (interleaved branch: M <= chunk size) ================= *)
 (* the generated code starts each row with `fa::mac(.., &mut carry2)` on a zero carry; the model's mac_row starts
